@@ -1,5 +1,17 @@
-"""C15 - change markers never enclose block-level structure."""
+"""C15 - change markers never enclose block-level structure.
+
+Besides the document-level observer (no block-level element inside ins/del.wm-diff in any parsed view) this module runs the
+tree-level theorems' instances: for generated page pairs the extracted model reports whether each page is admissible
+(Proofs/NestingProofs.v page_ok), whether its chunk stream is well nested (balc) and whether the single-sided views nest
+(nest).  The implications page_ok => balc => nest are theorems (C15_admissible_pages_are_well_nested,
+C15_tree_level_single_sided); evaluating them is a run of the theorems' instances, not their proof.  For admissible pages the
+residue of the document-level sentence is 'html5-parser reads a well-nested stream the way a stack parser does': that
+contract is validated here by parsing the implementation's view string both ways and comparing the element trees."""
+import re
+
 import render_checks as rc
+import render_lib as rl
+from common import run_driver, rng_for, I
 from props.render_common import run_render
 
 
@@ -7,8 +19,142 @@ def obs(a, b, r):
     return rc.c15_failures(r)
 
 
+def stack_tree(s, void, opaque):
+    """The element tree a stack parser builds from a well-nested tag stream; None if the stream is not well nested.
+    Opaque elements (raw text / undiffable content / iframe) are leaves."""
+    root = ('#root', [])
+    stack = [root]
+    i = 0
+    while True:
+        j = s.find('<', i)
+        if j < 0:
+            break
+        m = re.match(r'<(/?)([A-Za-z][^\s/>]*)', s[j:])
+        if not m:
+            i = j + 1
+            continue
+        name = m.group(2).lower()
+        k = s.find('>', j)
+        if k < 0:
+            return None
+        if name in ('html', 'head', 'body'):     # ignored inside a body, by the model's reading and by the HTML parser alike
+            i = k + 1
+            continue
+        if m.group(1):
+            if stack[-1][0] != name:
+                return None
+            stack.pop()
+            i = k + 1
+            continue
+        node = (name, [])
+        stack[-1][1].append(node)
+        if name in opaque:
+            e = s.lower().find('</%s>' % name, k)
+            i = (e + len(name) + 3) if e >= 0 else len(s)
+            continue
+        if name not in void:
+            stack.append(node)
+        i = k + 1
+    return root[1] if len(stack) == 1 else None
+
+
+def html5_tree(view, opaque):
+    import html5_parser
+    root = html5_parser.parse('<!doctype html><html><head></head><body>' + view + '</body></html>', treebuilder='lxml', return_root=True)
+    body = root.find('body')
+
+    def walk(el):
+        out = []
+        for c in el:
+            if not isinstance(c.tag, str):
+                continue
+            name = c.tag.split('}')[-1].lower()
+            out.append((name, [] if name in opaque else walk(c)))
+        return out
+    return walk(body) if body is not None else None
+
+
+def marker_has_block(tree, inside=False):
+    for name, kids in tree:
+        if inside and name in rl.BLOCK_SPEC:
+            return True
+        if marker_has_block(kids, inside or name in ('ins', 'del')):
+            return True
+    return False
+
+
+def nesting_pass(rep, ctx):
+    import web_monitoring_diff.html_render_diff as h
+    tier = ctx['tier']
+    rng = rng_for(ctx['seed'], 'c15-nesting')
+    docs = rc.documents(rng, 250 if tier == 'quick' else 4000)
+    void = set(h.void_tags)
+    opaque = (set(h.undiffable_content_tags) - {'img'}) | (set(h.empty_tags) - set(h.void_tags)) | {'title', 'noscript', 'noembed', 'noframes', 'xmp', 'plaintext'}
+    frags, lines = [], []
+    for a, b in docs:
+        try:
+            fa, fb = rl.fragments_of(a, b)
+            line, ok = rl.model_htmldiff_line(fa, fb, None)
+        except Exception:  # noqa
+            continue
+        if ok:
+            frags.append((fa, fb))
+            lines.append('nesting' + line[len('htmldiff'):])
+    reports = run_driver(lines)
+    stat = {'pairs': len(frags), 'pages_admissible': 0, 'pages_not_admissible': 0, 'streams_well_nested': 0, 'views_nested': 0,
+            'views_compared_with_html5_parser': 0, 'html5_parser_tree_equals_stack_tree': 0, 'stack_parser_unreadable': 0}
+    bad_instance = bad_contract = 0
+    for (fa, fb), rpt in zip(frags, reports):
+        rep.count(('nesting', fa, fb), fa != fb)
+        if isinstance(rpt, tuple) or len(rpt) != 6:
+            bad_instance += 1
+            continue
+        ok_old, ok_new, bal_old, bal_new, nest_del, nest_ins = [bool(x) for x in rpt]
+        for ok, bal, nst in ((ok_old, bal_old, nest_del), (ok_new, bal_new, nest_ins)):
+            stat['pages_admissible' if ok else 'pages_not_admissible'] += 1
+            stat['streams_well_nested'] += bal
+            stat['views_nested'] += nst
+            if (ok and not bal) or (bal and not nst):       # would contradict a theorem: the extraction or the driver is broken
+                bad_instance += 1
+        try:
+            meta, diffs = rl.impl_htmldiff(fa, fb, None)
+        except Exception:  # noqa
+            continue
+        for key, adm in (('deletions', ok_old), ('insertions', ok_new)):
+            if not adm:
+                continue
+            st = stack_tree(diffs[key], void, opaque)
+            if st is None:
+                stat['stack_parser_unreadable'] += 1
+                bad_contract += 1
+                if bad_contract <= 2:
+                    rep.violation('c15-nesting-stream-%d' % bad_contract, {
+                        'what': 'the %s view of an admissible page is not a well-nested tag stream, although the model proves it is' % key,
+                        'old_fragment': fa, 'new_fragment': fb, 'view': diffs[key][:2000]}, no_input=True)
+                continue
+            t5 = html5_tree(diffs[key], opaque)
+            stat['views_compared_with_html5_parser'] += 1
+            if t5 == st:
+                stat['html5_parser_tree_equals_stack_tree'] += 1
+            else:
+                # the contract of the oracle fails on this input: it is a violation only if the document-level sentence fails too
+                if marker_has_block(t5 or []):
+                    bad_contract += 1
+                    if bad_contract <= 2:
+                        rep.violation('c15-nesting-parse-%d' % bad_contract, {
+                            'what': 'html5-parser reads the well-nested %s view differently from a stack parser and finds a block-level element inside a marker' % key,
+                            'old_fragment': fa, 'new_fragment': fb, 'view': diffs[key][:2000]})
+    rep.extra['tree_level'] = stat
+    rep.obligation('theorem instances, run: page_ok => stream well nested => view nested, on %d page pairs through the extracted model' % len(frags), bad_instance == 0)
+    rep.obligation('contract of the re-parse: the single-sided views of %d admissible pages are well-nested streams; where html5-parser reads one '
+                   'differently from a stack parser no block-level element ends up inside a marker (%d of %d trees identical)' % (
+                       stat['pages_admissible'], stat['html5_parser_tree_equals_stack_tree'], stat['views_compared_with_html5_parser']), bad_contract == 0)
+
+
 def run(rep, ctx):
     run_render(rep, ctx, 'c15', [('no-block-in-marker', obs)], n_quick=600, n_thorough=10000, small_caps=True)
+    if ctx['model_available']:
+        nesting_pass(rep, ctx)
 
 
 def replay(rep, data):
